@@ -135,6 +135,17 @@ def work_c20(spec):
         r = {'verdict': 'inconclusive', 'inconclusive': ['template evaluator exceeded its wall-clock limit'], 'failures': [],
              'n_failures': 0, 'asserts': {}, 'paths': 0, 'instrs': 0, 'queries': {}, 'solver_s': 0, 'functions': [], 'externals': [], 'traces': []}
     r.update(base)
+    # The evaluator could not read the header's shape (a rewrite in a style its rule extractor does not know): the solver decides
+    # nothing. A concrete instantiation sweep by g++ over a small alphabet is run INSTEAD OF giving up at once: a counterexample it
+    # finds is a real one (instantiated by the real compiler) and is reported; finding none proves nothing - the unit stays inconclusive.
+    if r.get('verdict') == 'inconclusive' and not r.get('failures') and any('template evaluator' in x for x in r.get('inconclusive', [])):
+        f = c20_concrete_sweep(fe, spec)
+        if f is not None:
+            r['failures'] = [f]; r['n_failures'] = 1; r['verdict'] = 'fail'
+            r['inconclusive'] = []
+            r['fallback'] = 'concrete g++ instantiation sweep (evaluator could not read the header): counterexample only, no proof'
+        else:
+            r['inconclusive'].append('concrete g++ instantiation sweep over a small alphabet found no counterexample (proves nothing)')
     # differential validation: the witness of a proved leaf, instantiated by the real compiler
     r['diff'] = {'runs': 0, 'mismatches': []}
     for site, a in r.get('asserts', {}).items():
@@ -158,11 +169,59 @@ def g20_compiles(fe):
     return r.returncode == 0, r.stdout, ''
 
 
+def c20_concrete_sweep(fe, spec):
+    """fallback when the template evaluator cannot read the header: instantiate the real templates with every sequence over a small
+    alphabet (g++), return the first counterexample as a failure record, or None"""
+    import itertools
+    M = 2 ** 64 - 1
+    kind = spec['args'][0]
+    cases = []
+    if kind == 'sort':
+        n = int(spec['args'][1])
+        for ln in ([n, n + 1] if n >= 4 else [n]):
+            for xs in itertools.product([0, 1, 7, M], repeat=ln):
+                e = 'std::is_same_v<typename covfie::utility::sort_index_sequence<std::index_sequence<%s>>::type, std::index_sequence<%s>>' % (
+                    ', '.join(f'{v}ul' for v in xs), ', '.join(f'{v}ul' for v in sorted(xs)))
+                cases.append((list(xs), None, e))
+    else:
+        a, b = int(spec['args'][1]), int(spec['args'][2])
+        for us in itertools.product([0, 3, M], repeat=a):
+            for vs in itertools.product([0, 3, M], repeat=b):
+                want = 'true' if sorted(us) == sorted(vs) else 'false'
+                e = '(covfie::utility::is_permutation<std::index_sequence<%s>, std::index_sequence<%s>>::value == %s)' % (
+                    ', '.join(f'{v}ul' for v in us), ', '.join(f'{v}ul' for v in vs), want)
+                cases.append((list(us), list(vs), e))
+    src = os.path.join(fe.dir, spec['name'] + '.sweep.cpp')
+    exe = src[:-4]
+    with open(src, 'w') as fh:
+        fh.write('#include <covfie/core/utility/static_permutation.hpp>\n#include <type_traits>\n#include <utility>\n#include <cstdio>\n')
+        fh.write('static constexpr bool R[] = {\n' + ',\n'.join(c[2] for c in cases) + '\n};\n')
+        fh.write('int main() { for (unsigned i = 0; i < sizeof(R); i++) if (!R[i]) { std::printf("%u\\n", i); return 1; } return 0; }\n')
+    try:
+        r = subprocess.run(['g++', '-std=c++20', '-O0', '-ftemplate-depth=4096'] + fe.includes(os.path.join(REPO, 'lib')) + [src, '-o', exe],
+                           stdout=subprocess.PIPE, stderr=subprocess.STDOUT, text=True, timeout=600)
+        if r.returncode != 0:
+            return None
+        q = subprocess.run([exe], stdout=subprocess.PIPE, stderr=subprocess.STDOUT, text=True, timeout=60)
+    except subprocess.TimeoutExpired:
+        return None
+    if q.returncode != 1:
+        return None
+    c = cases[int(q.stdout.strip().splitlines()[0])]
+    if kind == 'sort':
+        return {'kind': 'C20-SORT', 'what': f'sort_index_sequence<{c[0]}> is not the ascending rearrangement (concrete g++ sweep; the evaluator could not read the header)',
+                'site': 1, 'inputs': [{'kind': 'u64', 'name': f'x{i}', 'value': v} for i, v in enumerate(c[0])], 'ufs': [], 'where': None,
+                'sweep_len': len(c[0])}
+    return {'kind': 'C20-PERM', 'what': f'is_permutation<{c[0]},{c[1]}> has the wrong value (concrete g++ sweep; the evaluator could not read the header)',
+            'site': 2, 'inputs': [{'kind': 'u64', 'name': f'u{i}', 'value': v} for i, v in enumerate(c[0])] +
+                                 [{'kind': 'u64', 'name': f'v{i}', 'value': v} for i, v in enumerate(c[1])], 'ufs': [], 'where': None}
+
+
 def c20_compile_check(fe, spec, values, expect_ok):
     """instantiate the real templates with concrete values under g++; returns (as expected?, detail)"""
     kind = spec['args'][0]
     if kind == 'sort':
-        xs = [values[f'x{i}'] for i in range(int(spec['args'][1]))]
+        xs = [values[f'x{i}'] for i in range(len([k for k in values if k.startswith('x')]) or int(spec['args'][1]))]
         body = ('using S = typename covfie::utility::sort_index_sequence<std::index_sequence<%s>>::type;\n'
                 'static_assert(std::is_same_v<S, std::index_sequence<%s>>, "sorted");\n') % (
             ', '.join(f'{v}ul' for v in xs), ', '.join(f'{v}ul' for v in sorted(xs)))
